@@ -13,10 +13,10 @@ import (
 func init() {
 	register(&PropRules{
 		ID:      "C15",
-		Explain: "Structural necessary conditions of 'operations touch only their target; failures and read-only calls change nothing': (C15.1) the read-only store API (Exists, Authenticate, List, ListFull, Check, NewDir*, and the config loader) reaches no create/write/rename/delete/mkdir/sync primitive over the whole-program call graph, and the set of store functions that do is exactly the mutator set; (C15.2) the SASL callback, the LDAP bind handler, basic-auth and /api/authenticate reach the store only through Store.Authenticate, the LDAP server registers only a bind function, and the dispatcher's authenticate step reaches no store mutator by call edges (only through the upgrade enqueue); (C15.3) set-admin performs stat + rename (+ directory fsync) only; (C15.4) the aux lines are copied on every path to the rename; (C15.5) after the creating open of the final name every error exit removes that name again; (C15.6) no exit after the rename can report failure. Round 3 (C15.5): success is reported only after the rename and nothing unlinks the final name after it.",
+		Explain: "Structural necessary conditions of 'operations touch only their target; failures and read-only calls change nothing': (C15.1) the read-only store API (Exists, Authenticate, List, ListFull, Check, NewDir*, and the config loader) reaches no create/write/rename/delete/mkdir/sync primitive over the whole-program call graph, and the set of store functions that do is exactly the mutator set; (C15.2) the SASL callback, the LDAP bind handler, basic-auth and /api/authenticate reach the store only through Store.Authenticate, the LDAP server registers only a bind function, and the dispatcher's authenticate step reaches no store mutator by call edges (only through the upgrade enqueue); (C15.3) set-admin performs stat + rename (+ directory fsync) only; (C15.4) the aux lines are copied on every path to the rename; (C15.5) after the creating open of the final name every error exit removes that name again; (C15.6) no exit after the rename can report failure; (C15.7) every operation built on top of these (UserHash.Add/Update, the Dir-level operations, the agent's handlers) calls at most one record mutator on a path and, once it has, reports success or exactly that call's error — no compensating second write, no other error after the store may have changed. Round 3 (C15.5): success is reported only after the rename and nothing unlinks the final name after it.",
 		Undec:   []string{"byte-level equality of the directory before/after at run time", "which system calls fail when (only: every error exit is clean)", "the content of auxiliary data"},
 		Run:     runC15,
-		Floors:  map[string]int{"C15.1": 6, "C15.2": 5, "C15.3": 1, "C15.4": 1, "C15.5": 1, "C15.6": 1},
+		Floors:  map[string]int{"C15.1": 6, "C15.2": 5, "C15.3": 1, "C15.4": 1, "C15.5": 1, "C15.6": 1, "C15.7": 5},
 	})
 }
 
@@ -30,6 +30,117 @@ func runC15(c *an.Ctx, p *an.Prog, thorough bool) {
 	c155(c, p, x)
 	c155b(c, p, x, "C15.5")
 	c156(c, p, x)
+	c157(c, p, x)
+}
+
+// c157: failure atomicity one level above the primitives. C15.5/C15.6 look at the functions that touch a record
+// themselves (creating open, rename, unlink); every other operation — UserHash.Add/Update, the Dir-level
+// AddUser/UpdateUser/SetAdmin/RemoveUser/Init, the agent's request handlers — changes the store only by calling such a
+// function. For these: on every path, once a record mutator has been called and is not known to have failed, (a) no
+// further mutation follows — a second, compensating write is not a rollback: it assumes the first call changed something
+// (set-admin of a user who already has the requested status changes nothing and succeeds) and can fail itself — and (b)
+// the operation reports exactly what that call reported: it returns success, or that call's own error result; any
+// other error (a later check that objects, a wrapped "could not …") is a failure reported after the store has changed.
+// Which functions are record mutators is computed from the primitives and their operand shapes (recordMutators).
+func c157(c *an.Ctx, p *an.Prog, x *fsx) {
+	prim, mut := recordMutators(p, x)
+	fns := append(append([]*ssa.Function{}, storeFns(p)...), pkgFns(p, mainPkg)...)
+	for _, fn := range fns {
+		calls := false
+		for _, in := range an.DeepInstrs(fn) {
+			if ci, ok := in.(ssa.CallInstruction); ok {
+				if _, isGo := in.(*ssa.Go); isGo {
+					continue // starts a goroutine: nothing is mutated on this path
+				}
+				if g := ci.Common().StaticCallee(); g != nil && mut[g] && !nestedIn(g, fn) {
+					calls = true
+				}
+			}
+		}
+		if !calls {
+			continue
+		}
+		bad := map[string]string{}
+		n := 0
+		visit := func(s *an.PathState) {
+			direct := map[int]bool{}
+			if prim[fn] {
+				for _, fe := range x.fsEvents(s, s.Events) {
+					switch fe.Effect {
+					case an.EffFSCreate, an.EffFSRename, an.EffFSDelete, an.EffFSOpenRW:
+						for _, sh := range fe.Ops {
+							if sh.Kind == "user" || sh.Kind == "userstem" || sh.Kind == "entry" {
+								direct[fe.Idx] = true
+							}
+						}
+					}
+				}
+			}
+			var live *an.Event // a mutation that may have taken effect
+			for i := range s.Events {
+				e := &s.Events[i]
+				if e.Kind != "call" {
+					continue
+				}
+				// the function's own closures (deferred cleanups) belong to its own protocol, which C15.5/C15.6 judge
+				if !(direct[i] || (e.Fn != nil && mut[e.Fn] && !nestedIn(e.Fn, fn))) {
+					continue
+				}
+				if live != nil {
+					bad["second-mutation:"+shortName(e.Callee)] = fmt.Sprintf("%s is called after %s may already have changed the store (path %s): a compensating or second write is not a rollback — if it fails, or if the first call changed nothing, the operation leaves a state nobody asked for", shortName(e.Callee), shortName(live.Callee), s.BlockPath())
+				}
+				if e.Res != nil && callErrNonNil(s, e.Res) {
+					continue // this call is known to have failed: by C15.5/C15.6 it changed nothing
+				}
+				live = e
+			}
+			if live == nil {
+				return
+			}
+			n++
+			if s.StopBlock != nil {
+				return // one turn of a loop (a dispatcher): nothing is reported here
+			}
+			k, r := exitKind(s)
+			if k == "success" || k == "panic" || r == nil {
+				return
+			}
+			if rc, ri := r.CallOf(); rc != nil && live.Res != nil && rc.K == live.Res.K {
+				if ei := errIndexOf(rc); ei < 0 || ri == ei || ri == -1 {
+					return // the mutator's own verdict, passed on unchanged
+				}
+			}
+			bad["error-after-mutation:"+shortTerm(r)] = fmt.Sprintf("exit returning %s (%s) is reachable after %s was called and is not known to have failed (path %s [%s]): the caller sees a failure although the store may have changed", shortTerm(r), k, shortName(live.Callee), s.BlockPath(), s.FactsString())
+		}
+		er := an.EnumPaths(fn, nil, nil, visit)
+		// a function that serves requests in a loop is looked at one turn at a time as well
+		for _, h := range loopHeaders(fn) {
+			r2 := an.EnumPathsTo(fn, h, nil, h, visit)
+			er.Paths += r2.Paths
+			er.Complete = er.Complete && r2.Complete
+		}
+		c.Stats["cfg_paths_enumerated"] += er.Paths
+		key := fnKey(fn) + "|one-mutation-own-verdict"
+		if !er.Complete {
+			c.Undecided("C15.7", key, p.Pos(fn.Pos()), "path limit")
+			continue
+		}
+		var msgs []string
+		for _, k := range sortedKeys(bad) {
+			msgs = append(msgs, bad[k])
+		}
+		c.Check(len(bad) == 0, "C15.7", key, p.Pos(fn.Pos()), fmt.Sprintf("%d paths through a record mutator: none mutates twice, each reports success or the mutator's own error", n), strings.Join(msgs, "; "))
+	}
+}
+
+// nestedIn: g is a function literal inside fn (at any depth).
+func nestedIn(g, fn *ssa.Function) bool {
+	for q := g.Parent(); q != nil; q = q.Parent() {
+		if q == fn {
+			return true
+		}
+	}
+	return false
 }
 
 func isStdlib(pkg string) bool {
